@@ -14,6 +14,21 @@ dropped), the group re-opened from disk in a fresh object; and evaluates the pro
 (oracle independent of Lean).  The same history is then run by the Lean model (`Model/C19.lean`,
 `Driver/C19.lean`) and compared step by step.
 
+Group names: every history has its own group name (plain, with characters some platforms refuse in file
+names `<>:"|?*`, other punctuation, non-ASCII; never a path separator) and, in part of the histories, a second
+"bystander" group in the same directory whose name is close to the first (what the first becomes under the
+usual make-it-a-safe-file-name rewritings, or a near neighbour): it must be found under its own name and never
+change.  The file primitives (`PersistentData.write_file/read_file/has_file/delete_file`) are additionally
+driven directly over several close names and compared, call by call, with a dictionary keyed by the name
+(direct oracle) and with the model's name-keyed store (`PM.C19.FS`, theorem `named_store`).
+
+Exceptions: an exception that leaves the code under test while the harness observes or drives it on a legal
+history is a finding (`violation`), never a harness crash: `through_code_under_test` separates it from a
+harness bug (which still exits 2).  A legal operation that raises where the model returns normally, after a
+prefix on which memory, file and re-opened group agreed with the model step by step, is reported as
+`operation-raises:<op>:<class>`.  The group a fresh process gets must itself be writable again
+(`reopened-group-unusable` otherwise).
+
 Torn writes inside one `PersistentData.write_file` call (crash points within a single file write)
 are out of scope: OS behaviour, not modelled.
 """
@@ -1425,10 +1440,12 @@ def load_corpus():
 def run(chk: core.Check):
     chk.rule = ("histories of JobGroup operations (create/re-open, add of 21 kinds of job incl. jobs with job_context, "
                 "delta parameters, jobs sent outside the group, duplicates, Sampler-made jobs; run/rerun parallel|sequential "
-                "with replace|append; progress; list_*) against a scripted server (accept with fresh id / refuse at every "
+                "with replace|append; progress; list_*), each under its own group name (plain / characters refused by some "
+                "platforms / punctuation / non-ASCII) and in part next to a bystander group with a close name, against a scripted server (accept with fresh id / refuse at every "
                 "loop position / status answers / script exhausted = process killed at that call); distinct = distinct "
                 "sequences of (operation, mode, result, group size); non-trivial = a launch refused or killed part-way, or "
-                "a re-open between an add and a launch")
+                "a re-open between an add and a launch; plus scripts of file-primitive calls (write/read/has/delete/open) "
+                "over 2-4 close file names in three addressing styles")
     chk.assumptions = [
         "data directory readable and writable (a private temporary directory; the user's real persistent-data "
         "directory is never touched: XDG_DATA_HOME is re-pointed before perceval is imported); one JobGroup object per "
@@ -1440,6 +1457,10 @@ def run(chk: core.Check):
         "RemoteJob.STATUS_REFRESH_DELAY is set to -1 so that every status evaluation may observe a new server status "
         "(models more than 1 s between evaluations)",
         "command delta parameters limited to max_samples, mapping delta parameters to {max_samples, max_shots} (what Sampler builds)",
+        "group names are non-empty file names without a path separator, not '.'/'..', at most 30 characters; the data "
+        "directory lives on a case-sensitive, normalisation-preserving POSIX file system (names differing only in case or "
+        "Unicode normalisation are not generated); file contents written through the primitives do not end in white space "
+        "(read_file strips it; the group file is JSON)",
     ]
     chk.required_branches = ["refuse@first", "refuse@middle", "refuse@last", "kill", "reopen-before-launch",
                              "rerun-replace", "rerun-append", "sequential", "dup-rejected", "ctx-job", "mapdelta-job",
